@@ -426,7 +426,11 @@ func c13Items(env *core.Env) []c13Item {
 		if v, ok := r.Single(); ok && len(r.Raw) == 1 {
 			_ = v
 			out = append(out, c13Item{s, "sys", r.Raw[0], m})
-			for variant := 0; variant < 2; variant++ {
+			for variant := 0; variant < 3; variant++ {
+				// variant 2: a date / coarse dateTime element built from a point in time inside its period (not its first instant)
+				if variant == 2 && !(m.Kind == "Date" || (m.Kind == "DateTime" && m.T.Comps <= 3)) {
+					break
+				}
 				if fv, ok := fhirCarrier(m, variant); ok {
 					out = append(out, c13Item{s, "fhir", fv, m})
 				}
